@@ -74,7 +74,7 @@ class SchemaParseError(StathamError):
         return cls(
             "No title defined in schema. Use "
             "`statham.titles.title_labeller` to pre-process the "
-            f"schema: {schema}"
+            f"schema: {_display(schema, str)}"
         )
 
     @classmethod
